@@ -21,8 +21,9 @@ import (
 )
 
 type redisCmd struct {
-	Now  int64    `json:"now"`
-	Args []string `json:"args"` // hex
+	Now   int64    `json:"now"`    // Unix seconds when the command was sent
+	NowMs int64    `json:"now_ms"` // the same clock reading in milliseconds
+	Args  []string `json:"args"`   // hex
 }
 
 type redisDesc struct {
@@ -181,12 +182,12 @@ func runRedisOn(cn *conn, d *redisDesc, seq [][]string) error {
 			args[i] = []byte(a)
 			hx[i] = hex.EncodeToString(args[i])
 		}
-		now := time.Now().Unix()
+		t := time.Now()
 		rep, err := cn.do(args...)
 		if err != nil {
 			return fmt.Errorf("command %q: %v (partial reply %q)", c, err, rep)
 		}
-		d.Cmds = append(d.Cmds, redisCmd{Now: now, Args: hx})
+		d.Cmds = append(d.Cmds, redisCmd{Now: t.Unix(), NowMs: t.UnixMilli(), Args: hx})
 		d.Replies = append(d.Replies, hex.EncodeToString(rep))
 		d.Text = append(d.Text, fmt.Sprintf("%q -> %q", c, rep))
 		if strings.EqualFold(c[0], "QUIT") {
@@ -414,7 +415,11 @@ func redisCaseTerm(d redisDesc) string {
 			b, _ := hex.DecodeString(a)
 			as[j] = coqSeg(b, false)
 		}
-		cmds[i] = fmt.Sprintf("C %d %s", c.Now, corr.List(as))
+		if c.NowMs != 0 {
+			cmds[i] = fmt.Sprintf("Cm %d %s", c.NowMs, corr.List(as))
+		} else {
+			cmds[i] = fmt.Sprintf("C %d %s", c.Now, corr.List(as))
+		}
 	}
 	reps := make([]string, len(d.Replies))
 	for i, r := range d.Replies {
